@@ -29,16 +29,18 @@ inductive EosArg where
 def eosFromSimulator (sim : Str) : Str :=
   supportedEos.foldl (fun acc e => if e.1.isSuffixOf sim then e.1 else acc) []
 
+/-- `if self.multi: if 'eos' in self.multi: if self.multi['eos']: aut2eosname = self.multi['eos'].strip()` -/
+def eosFromMulti (multi : Dict) : Str :=
+  if multi.isEmpty then []
+  else match Dict.get? multi Model.Convert.kEos with
+    | some (.str s) => if s.isEmpty then [] else strip s
+    | _ => []
+
 /-- the AUTOUGH2 EOS name that `eos_json` settles on (`[]` = not detected) -/
 def aut2EosName (eos : EosArg) (multi : Dict) (sim : Str) : Str :=
   match eos with
   | .none =>
-    let fromMulti : Str :=
-      if multi.isEmpty then []
-      else match Dict.get? multi Model.Convert.kEos with
-        | some (.str s) => if s.isEmpty then [] else strip s
-        | _ => []
-    if fromMulti.isEmpty && !sim.isEmpty then eosFromSimulator sim else fromMulti
+    if (eosFromMulti multi).isEmpty && !sim.isEmpty then eosFromSimulator sim else eosFromMulti multi
   | .idx i => (eosFromIndex.lookup i).getD []
   | .name s => s
 
